@@ -94,6 +94,19 @@ func c12Trans(c *Ctx, pre *Node, st Step, res *Result, post *State) ([]Violation
 				Detail: fmt.Sprintf("log shows author %q, date %q, message %q; expected author %q, offset %s, message %q", en.Author, en.Date, en.Message, name+" <"+email+">", fmtOffset(off), wantMsg)})
 		}
 	}
+	// a reader in another time zone sees the offset stored in the commit, not their own
+	reader := "TZ=VERIFTZ:525"
+	if off == 525 {
+		reader = "TZ=VERIFTZ:-300"
+	}
+	r3, _ := c.Probe(post, []string{reader}, "log", "-n", "1")
+	if es3 := ParseLog(r3.Stdout); r3.Exit == 0 && len(es3) == 1 {
+		offs := dateOffRe.FindAllString(es3[0].Date, -1)
+		if len(offs) == 0 || offs[len(offs)-1] != fmtOffset(off) {
+			vs = append(vs, Violation{Oracle: "log-shows-stored-offset", Command: "log", Tags: tags, Trace: append(append([]Step{}, trace...), Run("log", "-n", "1").WithEnv(reader)),
+				Detail: fmt.Sprintf("read in another time zone (%s), log shows date %q; the commit stores offset %s", reader, es3[0].Date, fmtOffset(off))})
+		}
+	}
 	return vs, len(vs) == 0
 }
 
@@ -133,7 +146,8 @@ func checkC12(e *RunEnv) *CheckResult {
 		}
 		names := []string{"A", "Al Bo", "Al  Bo", "é ü", "O'N", "a>b", "x@y", strings.Repeat("N", 200)}
 		emails := []string{"a@b.co", "a.b+c-d_e@x-y.z9.org", "A9@a1.b2.info"}
-		messages := []string{"", "m", "a: b", "l1\nl2", "l1\n\nl3", "\nlead", "trail\n", "é", strings.Repeat("x", 4096), "tree deadbeef", "author x", "100% of %s %d", "50%"}
+		messages := []string{"", "m", "a: b", "l1\nl2", "l1\n\nl3", "\nlead", "trail\n", "é", strings.Repeat("x", 4096), "tree deadbeef", "author x", "100% of %s %d", "50%",
+			strings.Repeat(strings.Repeat("forty kilobytes in eleven lines ", 120)+"\n", 11) + "end", "subject\n\n" + strings.Repeat("y", 70000)}
 		for _, off := range []int{-330, -45, 0, 345} {
 			env := fmt.Sprintf("TZ=VERIFTZ:%d", off)
 			for _, nm := range names {
@@ -144,6 +158,19 @@ func checkC12(e *RunEnv) *CheckResult {
 			}
 			for _, em := range emails {
 				cs = append(cs, Case{Base: base, BaseName: "S0+staged", BaseSeed: seed, Steps: []Step{Run("config", "user.email", em), Run("commit", "-m", "m").WithEnv(env).WithTags(offTags(off)...)}})
+			}
+		}
+		// the identity split over the two config files (name here, e-mail there)
+		for _, split := range [][]Step{
+			{Run("config", "user.name", "Local Name"), Run("config", "--global", "user.email", "global@x.io")},
+			{Run("config", "--global", "user.name", "Global Name"), Run("config", "user.email", "local@x.io")},
+			{Run("config", "--global", "user.name", "Global Name"), Run("config", "--global", "user.email", "global@x.io")},
+		} {
+			seed2 := append(append([]Step{Run("init")}, split...), Write("f", "f v1\n"), Run("add", "f"))
+			if b2 := x.BuildState(seed2); b2 != nil {
+				for _, off := range []int{-330, 345} {
+					cs = append(cs, Case{Base: b2, BaseName: "split-identity", BaseSeed: seed2, Steps: []Step{Run("commit", "-m", "m").WithEnv(fmt.Sprintf("TZ=VERIFTZ:%d", off)).WithTags(append(offTags(off), "identity-split")...)}})
+				}
 			}
 		}
 		cli = x.RunCases(cs)
